@@ -865,6 +865,13 @@ func RuleAT1(c *Ctx) {
 				ref, best = s, cnt
 			}
 		}
+		if 2*best <= len(members) {
+			// no row is shared by most members: the predicate groups kinds for another
+			// reason (e.g. "has a context of its own") and says nothing about their rows
+			sc.Info(m.Name(), c.P.Pos(fd.Pos()), fmt.Sprintf("not a class of interchangeable kinds: the most common row is shared by %d of %d members", best, len(members)))
+			n++
+			continue
+		}
 		var odd []string
 		for _, k := range members {
 			if s := sigOf(k); s != ref {
